@@ -1120,7 +1120,8 @@ def run_impl(case):
             metas.append({"kind": kind, "dg": dg_, "text": text_, "cmethod": cur["method"], "cfmt": cur["fmt"],
                           "ep_path": ent["url_path"], "raw_path": ent["raw_path"], "raw_body": ent["raw_body"]})
             acc = ",".join(sorted(x for x in ent["accept"].split(", ")))
-            ps = "&".join(sorted(f"{_cps(k_)}={_cps(v_)}" for k_, v_ in ent.get("params", [])))
+            ps = "&".join(sorted(f"{_cps(k_)}={_cps(v_)}" for k_, v_ in ent.get("params", [])
+                                 if k_ != ent.get("text_key")))
             https.append(f"{'U' if kind == 'u' else 'Q'} {ent.get('via')} {ent['url_path']} a:{acc} p:{ps}")
         captured.append(reqs)
         captured_meta.append(metas)
@@ -1148,6 +1149,15 @@ def run_impl(case):
                 wrote = True
             except Exception as e:  # noqa: BLE001
                 viol.append(f"raise: local mirror refused op {k_i}: {type(e).__name__}: {e}")
+        elif cfg != "ro" and k == "set" and out == "Refused" and op[1] not in BNODES:
+            # Graph.set = remove((s, p, None)) then add((s, p, o)): the store accepted the remove call and refused
+            # only the add (blank-node object), so the local dataset receives the remove ("the same calls")
+            try:
+                s_, p_, _o, g_ = op[1:5]
+                tgt = mirror.top if (g_ == 0 and cfg != "graph") else view(mirror.top, g_)
+                tgt.remove((term(s_, True), term(p_, True), None))
+            except Exception as e:  # noqa: BLE001
+                viol.append(f"raise: local mirror refused the remove part of op {k_i}: {type(e).__name__}: {e}")
         KM, KMN = _kq(mirror.quads()), _kn(mirror.names())
 
         def same(tag, what):
